@@ -47,7 +47,12 @@ def classify_residue(case):
     # 4. transfer requests
     for r in db.ArchiveFileCopyRequest.select().where(db.ArchiveFileCopyRequest.completed == 0, db.ArchiveFileCopyRequest.cancelled == 0):
         dest_nodes = [n for n in nodes.values() if n.group_id == r.group_to_id]
-        serving = [n for n in dest_nodes if n.id in all_usable]
+        # a Default group is served by a host iff exactly one of its nodes is usable there (several: the group I/O rejects them)
+        serving = []
+        for h in case.hosts:
+            mine = [n for n in dest_nodes if n.id in usable[h]]
+            if len(mine) == 1:
+                serving += mine
         src = nodes[r.node_from_id]
         sc = db.ArchiveFileCopy.get_or_none(file=r.file_id, node=src.id)
         sstate = sc.has_file if sc else "N"
@@ -55,7 +60,7 @@ def classify_residue(case):
                    .where(db.ArchiveFileCopy.file == r.file_id, db.StorageNode.group == r.group_to_id)]
         reasons = []
         if not serving:
-            reasons.append("destination without a usable node")
+            reasons.append("destination without a usable node (none, or several active on one host: rejected by the group I/O)")
         if "M" in gstates and "Y" not in gstates:
             reasons.append("destination awaiting a check")
         if not src.active:
@@ -161,6 +166,7 @@ def one_history(ctx, e, hseed):
             break
         sig = s2
     os.environ["PATH"] = "/usr/local/bin:/usr/bin:/bin"
+    case.close()
     if raised:
         return log, rounds, [("round-raised:" + raised[:30], f"a fault-free round raised {raised}")]
     if not converged:
@@ -175,7 +181,7 @@ def run(ctx):
     ok = common.proof_stage(ctx, MODULE)
     nh = 110 if ctx.quick() else 2500
     dist = {}
-    with envmod.Env() as e:
+    with envmod.Env(dbfile=True) as e:      # file database: persistent daemon loops (threads)
         for i in range(nh):
             hseed = f"{ctx.prop}-{ctx.seed}-h{i}"
             log, rounds, probs = one_history(ctx, e, hseed)
@@ -213,7 +219,7 @@ def replay(ctx, path):
         return 1 if probs else 0
     if "hseed" not in d:
         return 1
-    with envmod.Env() as e:
+    with envmod.Env(dbfile=True) as e:
         log, rounds, probs = one_history(ctx, e, d["hseed"])
     for l in log:
         print("  ", l[:200])
